@@ -33,6 +33,22 @@ def gen_docs(ctx):
     for _ in range(1200 if ctx.tier == 'quick' else 20000):
         stmts = gendoc.gen_program(rng)
         text, wants = gendoc.render_layout(rng, stmts)
+        if rng.random() < 0.15 and "'''" not in text and '"""' not in text:
+            # (not in docstrings with multi-line string literals: cutting a string-body line in two leaves text LEFT of the prompt
+            # column, which is not a well-formed docstring -- the parser drops such characters, see DESIGN A.6)
+            # a line boundary other than '\n' (form feed, NEL, U+2028 ...) inside a want or prose line: what str.splitlines calls
+            # a line is a line everywhere -- in the parts, in the display and in the numbering
+            ls = text.split('\n')
+            cand = [i for i, l in enumerate(ls) if l.strip() and not l.lstrip().startswith(('>>>', '...')) and len(l.strip()) > 2]
+            if cand:
+                i = rng.choice(cand)
+                k = len(ls[i]) - len(ls[i].lstrip()) + rng.randint(1, len(ls[i].strip()) - 1)
+                ls[i] = ls[i][:k] + rng.choice(BOUNDARIES) + ls[i][k:]
+                if rng.random() < 0.5:
+                    # no common indentation (what a google block or a docstring starting right after the quotes gives)
+                    m = min(len(l) - len(l.lstrip()) for l in ls if l.strip())
+                    ls = [l[m:] for l in ls]
+                text = '\n'.join(ls)
         docs.append(text)
     return docs
 
@@ -123,13 +139,16 @@ def check_doc(doc, lineno):
     except Exception as e:
         problems.append('displayed text does not parse again: %s' % type(e).__name__)
     # positions against the original docstring (doctest-relative numbers)
-    src_lines = doc.expandtabs().split('\n')
+    src_lines = doc.expandtabs().splitlines()
     for p in ex._parts:
         for j, l in enumerate(p.orig_lines):
             pos = p.line_offset + j
             if pos >= len(src_lines) or not same_line(src_lines[pos], l):
                 problems.append('line_offset + %d = %d does not hold %r in the docstring' % (j, pos, l))
     return reqs, texts, problems
+
+
+BOUNDARIES = ['\x0c', '\x0b', '\x1c', '\x1d', '\x1e', '\x85', '\u2028', '\u2029', '\r']
 
 
 def _worker(job):
@@ -140,7 +159,14 @@ def _worker(job):
     allreqs = []
     for d in docs:
         lineno = rng.choice([1, 7, 93, 998, 9999])
-        reqs, texts, problems = check_doc(d, lineno)
+        try:
+            reqs, texts, problems = check_doc(d, lineno)
+        except Exception as e:
+            if type(e).__name__ == 'DoctestParseError' and any(c in d for c in BOUNDARIES):
+                # the injected line boundary cut a string literal in two: no doctest, nothing to display
+                out.append([d, lineno, 0, [], ['UNPARSABLE']])
+                continue
+            raise
         allreqs += reqs
         out.append([d, lineno, len(reqs), texts, problems])
     ans = common.model_batch(allreqs)
@@ -250,6 +276,11 @@ def run(ctx):
     results = [r for ch in common.pmap(_worker, jobs) for r in ch]
     nv = {'c': 0, 'p': 0}
     for d, lineno, nreq, texts, problems, ans in results:
+        if problems == ['UNPARSABLE']:
+            ctx.count('injected-boundary:unparsable')
+            continue
+        if any(c in d for c in BOUNDARIES):
+            ctx.count('injected-boundary:displayed')
         ctx.evaluations += nreq
         ctx.nontrivial += 1
         for t, a in zip(texts, ans):
